@@ -59,11 +59,14 @@ theorem learner_transform_callable (beh : Beh) (st : Store) (id m b : Nat) (tag 
   have h1 : learnerReshapes1D = true := rfl
   simp [learnerTransform, h, h1, as2D_true]
 
-/-- for every history of learner operations (fit, transform, `set_params(model=…)`, on any learners) a learner
-whose `method_` is bound to its model stays so: after `set_params(model=new)` the bound object is `new` -/
+/-- for **every** history of operations on the store (fit / transform / `set_params(model=…)` of any learner,
+fit / transform of any stacking or transfer transformer, in any interleaving) a learner whose `method_` is bound to
+its model stays so — in particular after `set_params(model=new)` the bound object is `new` — and the store stays
+well-formed.  Together with `learner_transform_is_method_output`: at every point of every history `transform`
+returns the chosen method's output of the model the learner reports. -/
 theorem learner_history_bound (beh : Beh) (ops : List Op) (st : Store) (id : Nat)
-    (hops : ∀ op ∈ ops, isLearnerOp op = true) (h : LearnerBound st id) :
-    LearnerBound (run beh st ops).1 id := run_learnerBound beh ops st id hops h
+    (h : st.WF ∧ LearnerBound st id) :
+    (run beh st ops).1.WF ∧ LearnerBound (run beh st ops).1 id := run_learnerBound_all beh ops st id h
 
 /-- **wrapper_fit_is_direct_fit** (learner): `fit(X, y, **kw)` is exactly one `model.fit(X, y=y, **kw)`: the
 wrapped model's record gains that call and nothing else in the store changes -/
